@@ -383,6 +383,10 @@ class BaseWorld:
         self.interfere_at = None
         self.interfere_hook = None
         self.interfering = False
+        self.interfere2_at = None
+        self.interfere2_hook = None
+        self.interfering2 = False
+        self.nevents2 = 0
         self.times = []
         self.clock_fn = None
         self.urandom_ctr = 0
@@ -419,6 +423,18 @@ class BaseWorld:
         ex = Ctx.cur
         if ex is not None and ex.aborting:
             raise PathEnd('aborting')
+        if self.interfering and self.counting and self.interfere2_at is not None and not self.interfering2:
+            # depth-2 nesting: client C inside client B's call (own event counter)
+            j = self.nevents2
+            self.nevents2 += 1
+            if self.interfere2_at == j:
+                self.interfering2 = True
+                zpath.flag('interfered2')
+                try:
+                    self.interfere2_hook()
+                finally:
+                    self.interfering2 = False
+            return
         if not self.counting or self.interfering:
             return
         i = self.nevents
